@@ -331,6 +331,14 @@ class Interp:
             if key in self.builtins:
                 return self.builtins[key]
             return self.loader.external(v.name, name)
+        if isinstance(v, Builtin) and v.name == "dict" and name == "fromkeys":
+            def fromkeys(it, fr, a, k):
+                d = PyDict()
+                for x in it.to_list(a[0]):
+                    if not ops.dict_has(d, x):
+                        ops.dict_set(d, x, a[1] if len(a) > 1 else None)
+                return d
+            return Builtin("dict.fromkeys", fromkeys)
         if isinstance(v, BoundMethod) and name == "__self__":
             return v.selfv
         if isinstance(v, FuncVal):
